@@ -327,7 +327,7 @@ def genKey (vs : Nat) (dt : String) (buf i : Nat) : Option Key :=
       | some _ => (specialI[(i + 5 * buf) % 20]?).bind (fromIntKey dt)
       | none => fromIntKey dt (1 + i + 37 * buf)
   | 2 => fromIntKey dt (1 + (i * 7 + buf * 3) % 9)
-  | 3 => fromIntKey dt (((i * 5 + buf) % 5 : Nat) - 2)
+  | 3 => fromIntKey dt (((i * 3 + buf) % 5 : Nat) - 2)
   | 0 => fromIntKey dt (1 + i + 37 * buf)
   | _ => none
 
